@@ -104,6 +104,7 @@ def C02(prog: Program, run: Run, tier: str) -> None:
     mods = {"geobox", "geom", "gcp", "math", "types"}
     run.add(axis.rule_axis(prog, mods if tier == "quick" else mods | {"overlap", "roi", "gridspec", "_xr_interop", "warp", "ui"}), AXIS_DESC)
     run.add(specific.rule_corners(prog), "R-CORNERS footprint polygon and bounding box push the same four pixel corners through the transform; box = min/max over them")
+    run.add(extra.gcp_frames(prog), "R-FRAME GCPGeoBox applies the view affine in the right direction at every conversion between the control-point frame and the view frame (wld2pix, pix2wld, to_crs, gcps, approx)")
     run.add(specific.rule_immut(prog), "R-IMMUT _shape/_affine/_crs assigned only in GeoBoxBase.__init__, _extent only in extent")
     run.add(_only(crsguard.rule_retag(prog, {"geobox", "gcp"}), "geobox:", "gcp:"), "R-RETAG every view returns the receiver's CRS")
     run.add(_only(rounding.rule_round(prog, {"geobox", "gcp", "geom"}), "geobox:GeoBoxBase.compute", "geobox:GeoBox.", "geobox:scaled_down", "geobox:_round", "gcp:", "geom:BoundingBox.round"), ROUND_DESC)
@@ -137,7 +138,7 @@ def C04(prog: Program, run: Run, tier: str) -> None:
     run.add(_only(specific.rule_exhaust(prog), "roi:"), "R-EXHAUST both tilings implement every RoiTiles member")
     run.add(_only(specific.rule_cast(prog, {"roi", "_blocks"}), "roi:Var", "_blocks"), "R-CAST")
     run.add(_fwd(prog, {"roi", "_blocks"}), FWD_DESC)
-    run.add(extra.block_assembler(prog), "R-GUARDSEQ BlockAssembler reads each block through its own part of the 3-way intersection and writes through the window's part into a fill-initialised window")
+    run.add(extra.block_assembler(prog), "R-GUARDSEQ BlockAssembler indexes the request-relative window with full slices on non-spatial axes; reads each block through its own part of the 3-way intersection and writes through the window's part into a fill-initialised window")
     run.floor("R-API|", 20)
     run.floor("R-AXIS|", 25)
 
